@@ -230,6 +230,9 @@ func planLaws(prop string) {
 	r.Count("random_triples", rnd)
 
 	// L3: real sessions over real local roots.
+	if prop == "C04" {
+		l2Cycles(r, prop)
+	}
 	if prop == "C01" || prop == "C02" || prop == "C03" || prop == "C04" {
 		l3.Histories(r, prop)
 	}
